@@ -130,13 +130,13 @@ def configurations(pid, tier, seed):
             "a_free_upd": (cfg(InnerKinds=ALLINNER, FreeOrder=True, MaxHist=3, EmitSmall=0,
                                **em(150, 8)), o),
             "b_mixed_inputs": (cfg(Dom=(2, 3), InKindSeq=("emb", "catp", "catl"), MaxIn=3,
-                                   MaxL=5, MaxOuts=2, EmitSmall=0, **em(2500, 100)), o),
-            "c_deep": (cfg(Dom=(2, 2, 2), KSet={2}, MaxL=6, MaxIn=3, MaxAr=3, OnlySD=True,
-                           InnerKinds=ALLINNER, MaxOuts=2, Scheme=6, EmitSmall=0,
-                           **em(4000, 200)), o),
+                                   MaxL=5, MaxOuts=2, EmitSmall=0, **em(307, 30)), o),
+            "c_deep": (cfg(Dom=(2, 2, 2), KSet={2}, MaxL=5, MaxIn=3, MaxAr=3, OnlySD=True,
+                           InnerKinds=ALLINNER, MaxOuts=1, Scheme=6, EmitSmall=0,
+                           **em(61, 7)), o),
             "d_pipeline_upd": (cfg(Dom=(2, 2), KSet={1, 2}, MaxL=4, InKindSeq=("emb", "catp"),
                                    MaxOps=2, OpSet={"multiply", "integrate", "evidence"},
-                                   EmitOps={2}, MaxHist=3, EmitSmall=0, **sd, **em(1500, 60)),
+                                   EmitOps={2}, MaxHist=3, EmitSmall=0, **sd, **em(1000, 40)),
                                o),
             "e_poly_diff": (cfg(Dom=(2, 2), KSet={1, 2}, MaxL=4, InKindSeq=("poly",), Scheme=2,
                                 PolyDeg=2, MaxOps=2, OpSet={"differentiate", "multiply"},
@@ -146,38 +146,38 @@ def configurations(pid, tier, seed):
     if pid == "C10":
         acts = {"update", "reset", "load", "save", "eval"}
         return {
-            "a_one_op": (cfg(Dom=(2, 2), KSet={1, 2}, MaxL=4, InKindSeq=("emb", "catp", "catl"),
+            "a_one_op": (cfg(Dom=(2, 2), KSet={2}, MaxL=3, InKindSeq=("emb", "catp", "catl"),
                              InnerKinds=ALLINNER, MaxOps=1,
                              OpSet={"integrate", "multiply", "evidence", "conjugate"},
-                             EmitOps={1}, MaxHist=4, RunActs=acts, NVer=3, EmitSmall=0,
-                             **sd, **em(6000, 300)), {"nflags": 3}),
-            "b_chains": (cfg(Dom=(2, 2), KSet={2}, MaxL=3, InKindSeq=("emb", "catp"),
-                             MaxOps=3, OpSet={"integrate", "multiply", "evidence", "concat"},
-                             EmitOps={3}, MaxHist=4, RunActs=acts, NVer=2, EmitSmall=0,
-                             **sd, **em(20000, 1000)), {"nflags": 3}),
-            "c_poly": (cfg(Dom=(2, 2), KSet={1, 2}, MaxL=4, InKindSeq=("poly",), Scheme=2,
+                             EmitOps={1}, MaxHist=4, RunActs=acts, NVer=2, EmitSmall=0,
+                             **sd, **em(100, 5)), {"nflags": 3}),
+            "b_chains": (cfg(Dom=(2, 2), KSet={2}, MaxL=2, InKindSeq=("emb", "catp"),
+                             MaxOps=2, OpSet={"integrate", "multiply", "evidence", "concat"},
+                             EmitOps={2}, MaxHist=4, RunActs=acts, NVer=2, EmitSmall=0,
+                             **sd, **em(50, 3)), {"nflags": 3}),
+            "c_poly": (cfg(Dom=(2, 2), KSet={2}, MaxL=3, InKindSeq=("poly",), Scheme=2,
                            PolyDeg=2, MaxOps=2, OpSet={"differentiate", "multiply", "evidence"},
                            DiffK={1}, J=2, EmitOps={2}, MaxHist=4,
                            RunActs={"update", "reset", "eval"}, NVer=2, EmitSmall=0, **sd,
-                           **em(3000, 150)), {"nflags": 3}),
+                           **em(60, 3)), {"nflags": 3}),
             "d_long_hist": (cfg(Dom=(2, 2), KSet={2}, MaxL=3, InKindSeq=("emb",), MaxOps=1,
                                 OpSet={"integrate", "multiply"}, EmitOps={1}, MaxHist=6,
-                                RunActs=acts, NVer=2, EmitSmall=0, **sd, **em(600, 30)),
+                                RunActs=acts, NVer=2, EmitSmall=0, **sd, **em(150, 8)),
                             {"nflags": 3}),
         }
     if pid == "C19":
         acts = {"update", "reset", "save", "reload", "eval"}
         return {
-            "a_base": (cfg(Dom=(2, 2), KSet={1, 2}, MaxL=4, InKindSeq=("emb", "catp", "catl"),
-                           InnerKinds=ALLINNER, MaxOuts=2, MaxHist=4, RunActs=acts, NVer=3,
-                           EmitSmall=0, **em(1500, 80)), {"nflags": 3}),
-            "b_pipeline": (cfg(Dom=(2, 2), KSet={1, 2}, MaxL=4, InKindSeq=("emb", "catp"),
+            "a_base": (cfg(Dom=(2, 2), KSet={1, 2}, MaxL=3, InKindSeq=("emb", "catp", "catl"),
+                           InnerKinds=ALLINNER, MaxOuts=2, MaxHist=4, RunActs=acts, NVer=2,
+                           EmitSmall=0, **em(300, 15)), {"nflags": 3}),
+            "b_pipeline": (cfg(Dom=(2, 2), KSet={2}, MaxL=3, InKindSeq=("emb", "catp"),
                                MaxOps=2, OpSet={"integrate", "multiply", "evidence"},
                                EmitOps={1, 2}, MaxHist=4, RunActs=acts, NVer=2, EmitSmall=0,
-                               **sd, **em(9000, 400)), {"nflags": 3}),
+                               **sd, **em(700, 30)), {"nflags": 3}),
             "c_long": (cfg(Dom=(2, 2), KSet={2}, MaxL=3, InKindSeq=("emb", "poly"), Scheme=2,
                            MaxOps=1, OpSet={"multiply"}, EmitOps={0, 1}, MaxHist=6,
-                           RunActs=acts, NVer=2, EmitSmall=0, **sd, **em(800, 40)),
+                           RunActs=acts, NVer=2, EmitSmall=0, **sd, **em(400, 20)),
                        {"nflags": 3}),
         }
     if pid == "C13":
@@ -190,6 +190,8 @@ def configurations(pid, tier, seed):
                            EmitSmall=3, **em(30, 3)), o),
             "d_zeros": (cfg(InnerKinds={"sum", "had", "mix"}, Scheme=2, J=2, GradMod=2,
                             EmitSmall=3, **em(30, 3)), o),
+            "f_zeros_nonneg": (cfg(InnerKinds={"sum", "had", "mix"}, Scheme=7, J=2, GradMod=2,
+                                   EmitSmall=3, **em(30, 3)), o),
             "e_one_op": (cfg(Dom=(2, 2), KSet={1, 2}, MaxL=4, InKindSeq=("emb", "catp"),
                              MaxOps=1, OpSet={"integrate", "multiply", "evidence"}, EmitOps={1},
                              J=2, GradMod=3, EmitSmall=2, **sd, **em(60, 6)), o),
